@@ -145,6 +145,32 @@ func init() {
 		}
 		emit("(* EHLO keywords consulted by the code (Extension(...) / ext[...]), sorted: %s *)\nDefinition consulted_extensions : list (list N) :=\n  [%s].\n", strings.Join(extList, " "), strings.Join(extItems, ";\n   "))
 
+		// SendWithSMTPClient: `for id, message := range X` and `X[id].sendError = ...` use the same slice X = messages
+		loopOK := false
+		if fn, ok := p.funcs["Client.SendWithSMTPClient"]; ok && fn.Body != nil {
+			ast.Inspect(fn.Body, func(x ast.Node) bool {
+				rs, ok := x.(*ast.RangeStmt)
+				if !ok {
+					return true
+				}
+				over := p.src(rs.X)
+				key := ""
+				if rs.Key != nil {
+					key = p.src(rs.Key)
+				}
+				ast.Inspect(rs.Body, func(y ast.Node) bool {
+					if as, ok := y.(*ast.AssignStmt); ok && len(as.Lhs) == 1 && strings.HasSuffix(p.src(as.Lhs[0]), ".sendError") {
+						loopOK = over == "messages" && p.src(as.Lhs[0]) == "messages["+key+"].sendError"
+					}
+					return true
+				})
+				return true
+			})
+		} else {
+			untranslatable = append(untranslatable, "send_loop_indexes_batch")
+		}
+		emit("(* client_120.go SendWithSMTPClient: the loop ranges over messages and stores the error at messages[id] *)\nDefinition send_loop_indexes_batch : bool := %v.\n", loopOK)
+
 		// dataCloser.Close reads the reply to the end of the mail data with ReadResponse (all lines of a multi-line
 		// reply), not with ReadCodeLine (first line only: the rest would be taken for the next command's reply)
 		full := false
